@@ -1,0 +1,30 @@
+//go:build verif
+
+package gobl
+
+// Contracts for the goblvc verifier (see /verif/DESIGN.md). Comments only.
+//
+// ---- C09: a signature is accepted exactly when some supplied key verifies it
+// and the envelope's header contains the header that was signed.
+//
+//@ global ErrValidation != nil && ErrInternal != nil && ErrSignature != nil && ErrUnknownSchema != nil
+//@ pred keysOK(keys []*dsig.PublicKey) bool = forall i int :: 0 <= i && i < len(keys) ==> keys[i] != nil
+//@ pred someKey(sig *dsig.Signature, keys []*dsig.PublicKey) bool = exists i int :: 0 <= i && i < len(keys) && dsig.jwsValid(sig, keys[i])
+//@ pred sigOK(e *Envelope, sig *dsig.Signature, keys []*dsig.PublicKey) bool = (len(keys) > 0 ==> someKey(sig, keys)) && dsig.payloadOK(sig) && head.contains(e.Head, dsig.signedHeader(sig))
+//@ pred sigsOK(e *Envelope) bool = forall i int :: 0 <= i && i < len(e.Signatures) ==> e.Signatures[i] != nil && e.Signatures[i].jws != nil
+//
+//@ func (e *Envelope) verifySignature(sig, keys) (err)
+//@   requires e != nil && head.wfHeader(e.Head) && sig != nil && sig.jws != nil && keysOK(keys)
+//@   ensures err == nil <==> sigOK(e, sig, keys)
+//@   loop 1 invariant forall j int :: 0 <= j && j < idx ==> !(dsig.jwsValid(sig, keys[j]) && dsig.payloadOK(sig))
+//
+//@ func (e *Envelope) Verify(keys) (err)
+//@   requires e != nil && head.wfHeader(e.Head) && sigsOK(e) && keysOK(keys)
+//@   ensures [all] err == nil <==> len(e.Signatures) > 0 && (forall i int :: 0 <= i && i < len(e.Signatures) ==> sigOK(e, e.Signatures[i], keys))
+//@   loop 1 invariant head.wfHeader(e.Head) && sigsOK(e)
+//@   loop 1 invariant len(ve) == 0 <==> (forall i int :: 0 <= i && i < idx ==> sigOK(e, e.Signatures[i], keys))
+//
+//@ func (e *Error) WithCause(err) (r)
+//@   trusted copies the error object; result is never nil
+//@   requires e != nil
+//@   ensures r != nil
